@@ -208,7 +208,7 @@ def check(case, rec):
     rec.nontrivial(nt)
 
 
-PARTS = [Part("eq", cases(), check, n_quick=700, n_thorough=5000)]
+PARTS = [Part("eq", cases(), check, n_quick=2500, n_thorough=8000)]
 
 
 def coverage_warnings(rec):
